@@ -32,6 +32,8 @@ sslKeys_t *load_keys(const KeySpec &ks, int *rc_out) {
         if (ks.ca_mask & (1u << k)) { KeyMat m; if (keymat(k, m)) { cas.insert(cas.end(), m.ca, m.ca + m.caLen); } }
     }
     KeyMat id; bool have_id = keymat(ks.identity, id);
+    Bytes forged;
+    if (have_id && ks.forge_cert_sig) { forged.assign(id.cert, id.cert + id.certLen); forged[forged.size() - 6] ^= 0x04; id.cert = forged.data(); }
     if (have_id || !cas.empty()) {
         rc = matrixSslLoadKeysMem(keys, have_id ? id.cert : nullptr, have_id ? (int32) id.certLen : 0,
                                   have_id ? id.key : nullptr, have_id ? (int32) id.keyLen : 0,
